@@ -785,6 +785,46 @@ func checkHopCounts(c *Ctx) {
 			}
 		}
 	}
+	if n == 0 && len(appendCalls) == 0 {
+		// the counts are folded into min / max / sum as they are produced (no list of counts): the value that enters the fold is
+		// the result of the per-run computation; judged when it is a helper's result, reported as not decided otherwise
+		folded := 0
+		for _, b := range f.Blocks {
+			for _, in := range b.Instrs {
+				call, ok := in.(*ssa.Call)
+				if !ok || call.Common().StaticCallee() == nil || core.FuncPkg(call.Common().StaticCallee()) != core.FuncPkg(f) || innermostLoop(f, b) == nil {
+					continue
+				}
+				h := call.Common().StaticCallee()
+				if bt, ok := call.Type().Underlying().(*types.Basic); !ok || bt.Kind() != types.Int || len(h.Blocks) == 0 {
+					continue
+				}
+				rps, complete := core.ReturnPaths(c.P, h, 2000)
+				if !complete || len(rps) == 0 {
+					continue
+				}
+				folded++
+				okv := true
+				var bad *core.Term
+				for _, rp := range rps {
+					v := rp.Results[0]
+					within := v.Op == "len" || v.Op != "const" && v.Has(func(x *core.Term) bool { return x.Op == "loopphi" })
+					if rp.Ret.Block().Comment != "recover" && !within {
+						okv, bad = false, v
+					}
+				}
+				if okv {
+					R.OK("R16.7", fn+"#per-run-count", call.Pos(), fn, "per-run hop count (folded directly) is the run's length or the position of one of its hops")
+				} else {
+					R.Fail("R16.7", fn+"#per-run-count", call.Pos(), fn, "a per-run hop count of "+bad.String()+" enters the statistics: it is neither the run's length nor the position of one of its hops")
+				}
+			}
+		}
+		if folded == 0 {
+			R.Info("R16.7", fn+"#per-run-count", f.Pos(), fn, "the hop counts are folded without a list and without a per-run helper: the value range of the per-run count is not decided here")
+		}
+		return
+	}
 	R.Floor("R16.7:per-run-counts", n, 1)
 }
 
